@@ -506,6 +506,9 @@ class FillRequest(object):
         raise exceptions.LenaNotImplementedError
 
     def _run_fill_compute(self, flow):
+        # flow is taken slice by slice: that needs an iterator
+        # (slices of a list would always start from its beginning)
+        flow = iter(flow)
         while True:
             # A slice is a non-materialized list, which means
             # that it will not take place of *bufsize* in memory.
@@ -556,6 +559,9 @@ class FillRequest(object):
         from itertools import islice, chain
         el_run = self._el.run
         bufsize = self.bufsize
+        # flow is taken slice by slice: that needs an iterator
+        # (slices of a list would always start from its beginning)
+        flow = iter(flow)
 
         # we can yield results one by one
         if self._yield_on_remainder:
